@@ -270,7 +270,18 @@ func runC28(c *Ctx) {
 	var l *simnet.Link
 	var o *ConnOutcome
 	sp := &ConnSpec{ID: tls.HelloCustom, Spec: singleSuiteSpec(sc.ver, sc.suite), CCfg: &tls.Config{ServerName: "example.test", RootCAs: Roots()}, Peer: peer, SCfg: scfg, StdCfg: stdcfg, RefCfg: rcfg,
-		Setup: func(ll *simnet.Link) { l = ll; ll.Frag = ch.Bool(30, "frag") }}
+		Setup: func(ll *simnet.Link) {
+			l = ll
+			ll.Frag = ch.Bool(30, "frag")
+			// (in the writing task, inside the transport's Write)
+			ll.A.BeforeWrite = func(b []byte) {
+				if ksWant && o != nil && o.U != nil {
+					ksWant, ksGot = false, true
+					ksPending, ksErr = o.U.GetOutKeystream(n)
+					c.Fault("keystream-from-transport-write", 1)
+				}
+			}
+		}}
 	if between == "key-update" {
 		sp.ServerKeyUpdate = func(i int) (bool, bool) { return i == rounds+extraEcho, true }
 	}
@@ -284,11 +295,8 @@ func runC28(c *Ctx) {
 	if between == "key-update-during-write" {
 		sp.ServerKeyUpdate = func(i int) (bool, bool) { return i == rounds+1+extraEcho, true } // rounds echoes + the phase-0 plaintext come first
 		sp.AuxClient = func(o *ConnOutcome) {
-			for !kuwWriting {
-				if o.clientGone || kuwAuxDone {
-					return
-				}
-				simrt.WaitSteps(2)
+			if !simrt.Poll(func() bool { return kuwWriting || o.clientGone || kuwAuxDone }, 4000) || !kuwWriting {
+				return
 			}
 			simrt.Sleep(300 * time.Millisecond)
 			want := len("trigger") + len(kuwBig)
@@ -333,8 +341,9 @@ func runC28(c *Ctx) {
 					ioErr = err
 					return
 				}
-				for !kuwAuxDone {
-					simrt.WaitSteps(2)
+				if !simrt.Poll(func() bool { return kuwAuxDone }, 8000) {
+					ioErr = fmt.Errorf("the reader task did not finish")
+					return
 				}
 				l.AB.Cap = 0
 				if kuwAuxErr != nil {
@@ -382,11 +391,6 @@ func runC28(c *Ctx) {
 	}
 	// remember the tap position at which the record following each GetOutKeystream starts
 	sp.OnClientWrite = func(ll *simnet.Link, b []byte) {
-		if ksWant && o != nil && o.U != nil {
-			ksWant, ksGot = false, true
-			ksPending, ksErr = o.U.GetOutKeystream(n)
-			c.Fault("keystream-from-transport-write", 1)
-		}
 		if markPending {
 			markPending = false
 			tapAts = append(tapAts, len(ll.AB.Sent))
